@@ -327,4 +327,29 @@ theorem timer_remaining (s : Seg) (now : U32) (ht : s.resendts = s.ts + s.rto) (
   rw [this]
   omega
 
+/-- under the same hypotheses the two signed differences are opposite: "not due" is the same as
+"time left is positive" -/
+theorem timer_antisymm (s : Seg) (now : U32) (ht : s.resendts = s.ts + s.rto) (hr : s.rto.toNat < 2 ^ 31)
+    (hn : itimediff now s.ts ≥ 0) : itimediff now s.resendts = -(itimediff s.resendts now) := by
+  have h1 := (timer_remaining s now ht hr hn).1
+  rw [h1]
+  rw [ht]
+  unfold itimediff at hn ⊢
+  generalize s.ts = t at hn ⊢
+  generalize s.rto = r at hr hn ⊢
+  have hd1 : (now - t).toInt = (now - t).toNat := by
+    rw [BitVec.toInt_eq_toNat_cond] at hn ⊢; split at hn <;> rename_i hc
+    · rw [if_pos hc]
+    · omega
+  have hd2 : (now - t).toNat < 2 ^ 31 := by
+    rw [BitVec.toInt_eq_toNat_cond] at hn; split at hn <;> omega
+  have e : now - (t + r) = (now - t) - r := by bv_omega
+  rw [e, hd1]
+  generalize now - t = d at hd2 ⊢
+  rw [BitVec.toInt_eq_toNat_cond, BitVec.toNat_sub]
+  split <;> omega
+
+theorem run_append (k : Kcp) (ops : List Op) (op : Op) : run k (ops ++ [op]) = step (run k ops) op := by
+  unfold run; rw [List.foldl_append]; rfl
+
 end KcpVerif.Kcp
